@@ -1841,6 +1841,9 @@ class Cx:
         return self.im
 
     def __abs__(self):
+        if self.re.special or self.im.special:
+            # C99 hypot: infinite if either part is infinite, else nan
+            return INF if "inf" in (self.re.special, self.im.special) else NAN
         if self.im.is_zero_syntactic():
             return alg_abs(self.re)
         if self.re.is_zero_syntactic():
